@@ -117,7 +117,7 @@ func syncSource(c *Ctx, shape string) (*World, *Node) {
 
 func init() {
 	sections["sync"] = func(c *Ctx) error {
-		c.Rep.Rule = "source ledgers (genesis only, chain, two-node braid with several tips) streamed by the real StreamDAG and loaded by the real LoadDag in stream / shuffled / reversed order; ledger, genesis wallet, index and balances compared; the same follow-up gossip offered to both; every single corruption (duplicate vertex, duplicate transaction, missing parent, second self-sealed vertex with and without parents, empty transaction, non-canonical amount) must leave the node not loaded; sync from a truncated peer; non-trivial = distinct (shape, order) or corruption kind"
+		c.Rep.Rule = "source ledgers (genesis only, chain, two-node braid with several tips) streamed by the real StreamDAG and loaded by the real LoadDag in stream / shuffled / reversed order; ledger, genesis wallet, index and balances compared; the same follow-up gossip offered to both; every single corruption (duplicate vertex, duplicate transaction, missing parent, second self-sealed vertex with and without parents, empty transaction with absent / zero-length data, non-canonical amount, the root vertex itself emptied / non-canonical / replaced) must leave the node not loaded; sync from a truncated peer; non-trivial = distinct (shape, order) or corruption kind"
 		for _, shape := range []string{"genesis-only", "chain", "braid", "diamonds", "random-dag"} {
 			for _, order := range []string{"stream", "shuffled", "reversed"} {
 				w, src := syncSource(c, shape)
@@ -177,8 +177,13 @@ func init() {
 			}
 		}
 		// ---- single corruptions
-		for _, kind := range []string{"dup-vertex", "dup-transaction", "missing-parent", "second-self-sealed", "second-self-sealed-parentless", "empty-transaction", "non-canonical"} {
-			w, src := syncSource(c, "chain")
+		for _, kind := range []string{"dup-vertex", "dup-transaction", "missing-parent", "second-self-sealed", "second-self-sealed-parentless", "empty-transaction", "empty-transaction-zero-length-data", "non-canonical",
+			"root-transaction-emptied", "root-amount-non-canonical", "root-replaced-by-empty", "root-replaced-by-non-canonical"} {
+			shape := "chain"
+			if strings.HasPrefix(kind, "root-replaced") {
+				shape = "genesis"
+			}
+			w, src := syncSource(c, shape)
 			info := map[string]interface{}{"section": "sync", "corruption": kind}
 			c.Mark(info)
 			vs := w.Stream(src)
@@ -205,6 +210,34 @@ func init() {
 				t := w.NewTrx(w.wallets[1], w.wallets[2].Address(), spice.Melange{}, nil)
 				v, _ := accountant.NewVertex(t, mid.Hash, mid.Hash, mid.Weight+1, w.wallets[2])
 				vs = append(vs, &v)
+			case "empty-transaction-zero-length-data":
+				t := w.NewTrx(w.wallets[1], w.wallets[2].Address(), spice.Melange{}, []byte{})
+				v, _ := accountant.NewVertex(t, mid.Hash, mid.Hash, mid.Weight+1, w.wallets[2])
+				vs = append(vs, &v)
+			case "root-transaction-emptied", "root-amount-non-canonical":
+				// the self-sealed root (genesis vertex) itself is malformed, everything else is as streamed
+				for i, v := range vs {
+					if v.Transaction.IssuerAddress == v.SignerPublicAddress {
+						cp := *v
+						if kind == "root-transaction-emptied" {
+							cp.Transaction.Spice, cp.Transaction.Data = spice.Melange{}, nil
+						} else {
+							cp.Transaction.Spice = spice.Melange{Currency: 1, SupplementaryCurrency: maxSupp + 5}
+						}
+						vs[i] = &cp
+						w.ReDefV(&cp)
+					}
+				}
+			case "root-replaced-by-empty", "root-replaced-by-non-canonical":
+				// a one-vertex ledger whose only vertex is a properly signed, self-sealed, parentless vertex
+				// carrying an empty transaction / a non-canonical amount
+				amt := spice.Melange{}
+				if kind == "root-replaced-by-non-canonical" {
+					amt = spice.Melange{Currency: 1, SupplementaryCurrency: maxSupp + 5}
+				}
+				t := w.NewTrx(src.w, w.wallets[0].Address(), amt, nil)
+				v, _ := accountant.NewVertex(t, [32]byte{}, [32]byte{}, 0, src.w)
+				vs = []*accountant.Vertex{&v}
 			case "non-canonical":
 				t := w.NewTrx(w.wallets[1], w.wallets[2].Address(), spice.Melange{SupplementaryCurrency: maxSupp + 5}, nil)
 				v, _ := accountant.NewVertex(t, mid.Hash, mid.Hash, mid.Weight+1, w.wallets[2])
